@@ -383,6 +383,11 @@ def oracle_bin(E, op, a, b, r, path):
     n = len(A) if ka == "arr" else (len(B) if kb == "arr" else 1)
     ekind = "arr" if "arr" in (ka, kb) else "val"
     exp, mags = [], []
+    modtol = []
+    # `%`: Python's float % (fmod) and numpy's remainder are exact on doubles, so the only rounding is that of converting one
+    # operand to the other's unit system (none when both are stored in the same system or one is a plain number): the result
+    # is off by at most floor(a/m) * |m| * (a few ulp); the tolerance is therefore relative to the MODULUS
+    conv_err = Fraction(0) if (ka == "num" or kb == "num" or tuple(pa[2]) == tuple(pb[2])) else Fraction(16, 2 ** 52)
     for i in range(n):
         x, y = _bc(A, i), _bc(B, i)
         if op == "add":
@@ -397,10 +402,11 @@ def oracle_bin(E, op, a, b, r, path):
             q = x / y
             fl = math.floor(q)
             dist = min(q - fl, fl + 1 - q)
-            if (q != 0 and dist < Fraction(1, 10 ** 12) * abs(q)) or abs(q) > 10 ** 10:
-                exp.append(None); mags.append(None)
+            if (q != 0 and dist <= conv_err * abs(q) * 4) or abs(q) > 10 ** 14:
+                exp.append(None); mags.append(None); modtol.append(None)
             else:
                 exp.append(x - y * fl); mags.append(abs(x) + abs(y * fl))
+                modtol.append(Fraction(1, 10 ** 9) * abs(y) + conv_err * abs(fl) * abs(y))
     if isinstance(r, Raised):
         E.find(key0 + ":raised", "%s of %s and %s (dimensionally valid) raised %s" % (op, ka, kb, type(r.exc).__name__),
                path, impl=E.canon(r), expected={"dim": edim, "si": [rstr(v) if v is not None else None for v in exp]})
@@ -429,9 +435,12 @@ def oracle_bin(E, op, a, b, r, path):
         if exp[i] is None:
             E.skips.append("ambiguous")
             continue
-        if not qclose(pr[0][i], exp[i], mags[i]):
-            E.find(key0 + ":value", "%s of %s and %s: SI value %s, exact SI arithmetic gives %s" % (
-                op, ka, kb, fstr(pr[0][i]), fstr(exp[i])), path, impl=E.canon(r),
+        okv = (abs(pr[0][i] - exp[i]) <= modtol[i]) if op == "mod" else qclose(pr[0][i], exp[i], mags[i])
+        if not okv:
+            E.find(key0 + ":value", "%s of %s and %s: SI value %s, exact SI arithmetic gives %s%s" % (
+                op, ka, kb, fstr(pr[0][i]), fstr(exp[i]),
+                " (off by %s, modulus %s, quotient %s)" % (fstr(abs(pr[0][i] - exp[i])), fstr(_bc(B, i)), fstr(_bc(A, i) / _bc(B, i))) if op == "mod" else ""),
+                path, impl=E.canon(r),
                 expected={"dim": edim, "si": [rstr(v) if v is not None else None for v in exp]})
             return
 
@@ -1019,7 +1028,7 @@ def dtype_values(rng, dt, n):
     if dt == "int32":
         return [Fraction(rng.choice([1, -1]) * rng.randint(30000, 2 * 10 ** 9)) for _ in range(n)]
     if dt == "int64":
-        return [Fraction(rng.choice([1, -1]) * rng.randint(2 ** 31, 2 ** 52)) for _ in range(n)]
+        return [Fraction(rng.choice([1, -1]) * rng.randint(2 ** 31, 2 ** 50)) for _ in range(n)]   # products with small ints stay below 2**53 (exact doubles)
     # float32: 24-bit mantissa times a power of two
     return [Fraction(rng.choice([1, -1]) * rng.randint(2 ** 22, 2 ** 24 - 1)) * Fraction(2) ** rng.randint(-30, 10) for _ in range(n)]
 
@@ -1072,6 +1081,38 @@ def dtype_cases(rng, reps):
             a = dtype_leaf(rng, dt, 2, U, d)
             si0 = abs(Fraction(a["xs"]["vs"][0])) * si_factor(U, d)
             out.append({"e": {"k": "bin", "op": "add", "a": qty_leaf(rng, "val", d, 1, si_target=si0 * 3, sys=V), "b": a}})
+    return out
+
+
+# ------------------------------------------------------------------------------------------------
+# `%` with large non-integer quotients (1e7 … 1e13), all pairings, same and different unit systems
+# ------------------------------------------------------------------------------------------------
+def bigmod_cases(rng, reps):
+    out = []
+    pairings = [("val", "val"), ("val", "arr"), ("arr", "val"), ("arr", "arr"), ("val", "num"), ("num", "val"), ("arr", "num"), ("num", "arr")]
+    for rep in range(reps):
+        for (kl, kr) in pairings:
+            for same in (True, False):
+                d = rand_dim(rng)
+                U = rand_sys(rng)
+                V = U if same else rand_sys(rng)
+                n = rng.randint(1, 3)
+                m_si = rand_mag(rng) * Fraction(rng.randint(10 ** 5, 10 ** 8), 999983) * rng.choice([1, -1])
+                qs = [(rng.randint(1, 9) * 10 ** rng.randint(7, 12) + rng.randint(0, 10 ** 6)) * rng.choice([1, 1, -1])
+                      + Fraction(rng.randint(150, 850), 1000) for _ in range(n)]
+
+                def leaf(kind, sys, sis, other_sys):
+                    if kind == "num":     # a plain number takes the quantity's units
+                        return {"k": "leaf", "t": "num", "v": rstr(float(sis[0] / si_factor(other_sys, d))), "py": "float"}
+                    vals = [rstr(float(s / si_factor(sys, d))) for s in sis]
+                    if kind == "val":
+                        return {"k": "leaf", "t": "val", "x": {"v": vals[0], "u": unitsj(sys, d)}}
+                    return {"k": "leaf", "t": "arr", "xs": {"vs": vals, "u": unitsj(sys, d)}}
+                a = leaf(kl, U, [q * m_si for q in qs], V)
+                b = leaf(kr, V, [m_si * (1 + Fraction(i, 7)) for i in range(n)] if kr == "arr" else [m_si], U)
+                if kl == "arr" and kr == "arr":
+                    a = leaf(kl, U, [q * m_si * (1 + Fraction(i, 7)) for i, q in enumerate(qs)], V)
+                out.append({"e": {"k": "bin", "op": "mod", "a": a, "b": b}})
     return out
 
 
@@ -1517,6 +1558,9 @@ def run(ctx):
                      "dispatch): model (rdunder applied literally) and oracle.")
     ctx.notes.append("operands built from float32 / int32 / int64 / uint8 ndarrays (values exactly representable in the dtype) denote the "
                      "same quantities: the oracle is exact arithmetic on their SI values as for any other operand (dtype stream).")
+    ctx.notes.append("% : the oracle is the exact floored modulo of the SI values; tolerance 1e-9*|modulus| plus floor(a/m)*|m|*16ulp for "
+                     "the rounding of the unit conversion (none when both operands are stored in one system or one is a plain number: "
+                     "float % is exact); quotients up to 1e13 are generated (bigmod stream).")
     ctx.notes.append("UnitArray ** n raises NotImplementedError always (documented); the statement's ** is on scalar quantities.")
     ctx.notes.append("PURITY clause tested by every stream (a consequence of the statement: the result depends only on the operands' SI "
                      "values and dimensions): an operator must not modify its operands or earlier results, its result is a new object "
@@ -1530,6 +1574,8 @@ def run(ctx):
     process(ctx, E, seq_cases(rng, ctx.n(400, 8000)), "sequences")
     # 1. exhaustive table
     process(ctx, E, table_cases(rng, E), "table_cases")
+    # 1a. % with large non-integer quotients
+    process(ctx, E, bigmod_cases(rng, ctx.n(12, 150)), "bigmod_cases")
     # 1b. operands built from ndarrays of dtype float32 / int32 / int64 / uint8
     process(ctx, E, dtype_cases(rng, ctx.n(2, 20)), "dtype_cases")
     # 2. random trees
